@@ -3,6 +3,7 @@
 package main
 
 import (
+	"encoding/base64"
 	"fmt"
 	"math/big"
 	"net"
@@ -11,6 +12,7 @@ import (
 	"regexp"
 	"strings"
 	"testing"
+	"time"
 
 	middlewareapi "github.com/oauth2-proxy/oauth2-proxy/v7/pkg/apis/middleware"
 	"github.com/oauth2-proxy/oauth2-proxy/v7/pkg/apis/options"
@@ -73,6 +75,81 @@ func driveC15(t *testing.T, out *vEmitter) {
 	vC15Routes(t, out)
 	vC15Nets(t, out)
 	vC15ClientIP(t, out)
+	vC15OtherHeaders(t, out)
+}
+
+// vC15OtherHeaders: on the whole proxy, an exempt request is let through and a non-exempt one is not, whatever
+// ELSE the request carries: no credential, a valid cookie of a session that passes the rules, a valid cookie of a
+// session that fails them, garbage cookies, garbage or foreign Authorization values.
+func vC15OtherHeaders(t *testing.T, out *vEmitter) {
+	vKeys()
+	for _, redis := range []bool{false, true} {
+		e := vNewEnv(t, vEnvCfg{oidc: true, redis: redis, mod: func(o *options.Options) {
+			o.EmailDomains = []string{"example.com"}
+			o.SkipAuthRoutes = []string{"GET=^/public", "!=^/private"}
+			o.SkipAuthPreflight = true
+			o.TrustedIPs = []string{"10.0.0.0/8"}
+			o.SkipJwtBearerTokens = true
+			o.Providers[0].OIDCConfig.InsecureSkipNonce = true
+		}})
+		mkCookie := func(email string, big bool) string {
+			b := e.newBrowser("https://app.example.com")
+			n := 20
+			if big {
+				n = 5000
+			}
+			b.seedSession(email, time.Minute, n)
+			return b.cookieHeader("/")
+		}
+		others := []struct {
+			label string
+			hs    [][2]string
+		}{
+			{"nothing", nil},
+			{"authorised-cookie", [][2]string{{"Cookie", mkCookie("user@example.com", false)}}},
+			{"unauthorised-cookie", [][2]string{{"Cookie", mkCookie("mallory@evil.test", false)}}},
+			{"unauthorised-split-cookie", [][2]string{{"Cookie", mkCookie("mallory@evil.test", true)}}},
+			{"garbage-cookie", [][2]string{{"Cookie", e.opts.Cookie.Name + "=garbage|1|x"}}},
+			{"garbage-bearer", [][2]string{{"Authorization", "Bearer a.b.c"}}},
+			{"unauthorised-bearer", [][2]string{{"Authorization", "Bearer " + vJWT(vKeyRSA, "RS256", vClaims("mallory@evil.test", nil))}}},
+			{"basic-unknown", [][2]string{{"Authorization", "Basic " + base64.StdEncoding.EncodeToString([]byte("nobody:x"))}}},
+			{"accept-json", [][2]string{{"Accept", "application/json"}, {"X-Requested-With", "XMLHttpRequest"}}},
+		}
+		reqs := []struct {
+			label, method, target, remote string
+			exempt                        bool
+		}{
+			{"route", "GET", "/public/page?x=/private", "192.0.2.10:40000", true},
+			{"route-negated", "POST", "/anything", "192.0.2.10:40000", true},
+			{"preflight", "OPTIONS", "/private/x", "192.0.2.10:40000", true},
+			{"trusted-ip", "GET", "/private/x", "10.1.2.3:555", true},
+			{"next-to-trusted-net", "GET", "/private/x", "11.0.0.0:555", false},
+			{"not-exempt", "GET", "/private/x", "192.0.2.10:40000", false},
+			{"not-exempt-method", "POST", "/private/public", "192.0.2.10:40000", false},
+		}
+		for _, rq := range reqs {
+			for _, o := range others {
+				req, err := vRawRequest(vBuildRaw(rq.method, rq.target, "app.example.com", o.hs, ""))
+				if err != nil {
+					t.Fatal(err)
+				}
+				req.RemoteAddr = rq.remote
+				res := e.serve(req)
+				hit := res.Hit()
+				out.Obs("other-headers/"+rq.label, true, vL(vS(rq.label), vS(o.label), vBool(redis), vI(int64(res.Status)), vBool(hit)))
+				out.Stat("other_header_cases", 1)
+				authorised := o.label == "authorised-cookie"
+				switch {
+				case rq.exempt && !hit:
+					out.Violation("bypass/other-headers-influence", "an exempt request was not let through because of what else it carries",
+						map[string]interface{}{"request": rq.label, "other": o.label, "status": res.Status, "redis": redis})
+				case !rq.exempt && hit && !authorised:
+					out.Violation("bypass/other-headers-influence", "a request matching no exemption was let through",
+						map[string]interface{}{"request": rq.label, "other": o.label, "status": res.Status, "redis": redis})
+				}
+			}
+		}
+	}
 }
 
 func vC15Routes(t *testing.T, out *vEmitter) {
